@@ -54,7 +54,8 @@ EdgeClauses(cfg, g, e) ==
   IF e.skipped \/ c = 0 THEN {} ELSE
        (IF Gives(e) /\ e.runit \notin Usable(cfg) THEN {"InPoolUsable"} ELSE {})
   \cup (IF Gives(e) /\ \E d \in Clients(cfg) \ {c} :
-              (Unexpired(cfg, g, d) /\ g.bound[d].ip = e.runit) \/ (OfferLive(cfg, g, d) /\ g.offer[d].ip = e.runit)
+              (Unexpired(cfg, g, d) /\ g.bound[d].ip = e.runit)
+              \/ (e.rtype = "ACK" /\ OfferLive(cfg, g, d) /\ g.offer[d].ip = e.runit)   \* "never ACKNOWLEDGES ... offered to a different client"
           THEN {"NotOthers"} ELSE {})
   \cup (IF Gives(e) /\ e.runit \in g.declined THEN {"NotDeclined"} ELSE {})
   \cup (IF IsReq(e.op) /\ Unexpired(cfg, g, c) /\ e.req = g.bound[c].ip /\ ~(e.rtype = "ACK" /\ e.runit = e.req)
